@@ -156,3 +156,58 @@ UNITS.append(dict(
                dict(name='_dbus_validate_bus_namespace', file='dbus/dbus-marshal-validate.c', status='replaced', note='C16.bus_namespace'),
                dict(name='_dbus_string_init_const/_get_length/_equal_c_str/_ends_with_c_str', file='dbus/dbus-string.c, dbus-string-util.c', status='inlined', note='real code on the literal keys')],
     assumptions=['keys are drawn from a pool of 14 literals; the argument number is written in decimal without sign or leading zero']))
+
+# ------------------------------------------------------------------------------------------------------------
+# 5. B: quoting and key scanning of the real tokenizer vs the reference written from the specification
+for part, nm, fn, family in ((1, 'value', 'find_value', 'a backslash directly followed by a comma or a backslash'), (2, 'key', 'find_key', 'a pair without a key, e.g. "="')):
+    for excl in (False, True):
+        for n, tier in ((10, 'quick'),) + (((12, 'thorough'),) if excl else ()):
+            UNITS.append(dict(
+                name='C07.grammar.%s%s.b%d' % (nm, '.known_excluded' if excl else '', n), props=['C07'], kind='B', route='plain', bus=True,
+                tus=[dict(file=SIG, include_as='VERIF_TU')], harness='harness/c07_grammar.c',
+                defines=['C07_N=%d' % n, 'VERIF_PART=%d' % part] + (['VERIF_EXCLUDE_KNOWN'] if excl else []),
+                unwind=2 * n + 4, timeout=900, expect_s=40 if n == 10 else 150, tier=tier,
+                trace_is_execution=True, replay_family='match', replay_fn=nm,
+                must_have=['post1', 'post2', 'post3'],
+                bounds={'text_bytes': n, 'alphabet': "a = ' \\ , space"},
+                functions=[dict(name=fn, file=SIG, status='bounded', contract='equals the reference (%s) on every text of <= %d bytes over the alphabet' % ('ref_value: quoting paragraph of the specification' if part == 1 else 'key scan: [white] key [white] =', n)),
+                           dict(name='_dbus_string_* / dbus_set_error*', file='dbus/dbus-string.c, dbus-errors.c', status='stub', note='functional model: fixed-capacity byte buffers, no allocation failure')],
+                assumptions=(['TEMPORARY exclusion of the family of texts on which the unchanged tree deviates from the specification: ' + family] if excl else [])))
+
+# ------------------------------------------------------------------------------------------------------------
+# 6. B: recipients of a broadcast; removal by value; disconnect
+CONN = 'bus/connection.c'
+RECIP_TUS = [dict(file=SIG, include_as='VERIF_TU'), dict(file=CONN, include_as='VERIF_TU2'), dict(file='dbus/dbus-list.c')]
+RECIP_COMMON = {'alloc_link': 'verif_alloc_link', 'free_link': 'verif_free_link', 'match_rule_to_string': 'verif_stub_to_string', 'dbus_connection_get_data': 'verif_stub_connection_get_data'}
+LIST_FUNCS = [dict(name='_dbus_list_append/_remove_link/_clear/_get_first_link/_get_last_link', file='dbus/dbus-list.c', status='inlined', note='real pointer code'),
+              dict(name='alloc_link/free_link', file='dbus/dbus-list.c', status='stub', note='static pool of links instead of mempool + global lock; allocation may fail'),
+              dict(name='match_rule_to_string', file=SIG, status='stub', note='feeds _dbus_verbose only (logging is dropped)')]
+UNITS.append(dict(
+    name='C07.recipients.r3c3', props=['C07', 'C05'], kind='B', route='plain', bus=True, tus=RECIP_TUS, harness='harness/c07_recip.c', extra_sources=[MEM], defines=['VERIF_PART=1'],
+    replace_calls=dict(RECIP_COMMON, **{'match_rule_matches': 'verif_stub_match_rule_matches', 'dbus_message_get_type': 'verif_stub_get_type',
+                                       'dbus_message_get_interface': 'verif_stub_get_interface', '_dbus_hash_table_lookup_string': 'verif_stub_hash_lookup_string'}),
+    unwind=12, timeout=900, expect_s=90, must_have=['post1', 'post2', 'post3', 'post5'],
+    bounds={'rules': 3, 'connections': 3, 'lists': 'the four lists a message selects out of 5 type pools x (no interface | one interface bucket)'},
+    functions=[dict(name='bus_matchmaker_get_recipients, get_recipients_from_list, bus_matchmaker_get_rules', file=SIG, status='bounded', contract='each connection listed exactly once iff one of its rules in a selected list matches and it is not the addressed recipient; OOM => FALSE, empty list'),
+               dict(name='bus_connection_mark_stamp, bus_connections_increment_stamp', file=CONN, status='bounded', note='real code'),
+               dict(name='match_rule_matches', file=SIG, status='replaced', note='contract of C07.match: arbitrary verdict per rule; must be asked with already_matched = TYPE|INTERFACE'),
+               dict(name='_dbus_hash_table_lookup_string', file='dbus/dbus-hash.c', status='stub', note='ghost map: at most one interface bucket per type pool'),
+               dict(name='dbus_connection_get_data', file='dbus/dbus-connection.c', status='stub', note='returns the BusConnectionData of that connection'),
+               dict(name='dbus_message_get_type/_get_interface', file='dbus/dbus-message.c', status='stub', note='message facts')] + LIST_FUNCS,
+    assumptions=['connection stamps are not ahead of the global stamp (they were written in earlier rounds; wrap-around after INT_MAX rounds is excluded, as the code comment says)']))
+UNITS.append(dict(
+    name='C07.remove_by_value.r3', props=['C07'], kind='B', route='plain', bus=True, tus=RECIP_TUS, harness='harness/c07_recip.c', extra_sources=[MEM], defines=['VERIF_PART=2'],
+    replace_calls=dict(RECIP_COMMON, **{'bus_connection_remove_match_rule': 'verif_stub_connection_remove_match_rule', 'bus_match_rule_unref': 'verif_stub_rule_unref', 'dbus_set_error': 'verif_stub_set_error'}),
+    unwind=12, timeout=600, expect_s=30, must_have=['post1', 'post2', 'post3', 'post4'],
+    bounds={'rules': 3, 'owners': 2, 'rule_shapes': "member='x' / member='y'"},
+    functions=[dict(name='bus_matchmaker_remove_rule_by_value, bus_matchmaker_remove_rule_link, match_rule_equal', file=SIG, status='bounded', contract='removes exactly the most recently added rule equal to the argument, or MatchRuleNotFound and no change'),
+               dict(name='bus_connection_remove_match_rule, bus_match_rule_unref, dbus_set_error', file='bus/connection.c, bus/signals.c, dbus/dbus-errors.c', status='stub', note='counted per rule / error name recorded')] + LIST_FUNCS,
+    assumptions=[]))
+UNITS.append(dict(
+    name='C07.disconnected.r3', props=['C07'], kind='B', route='plain', bus=True, tus=RECIP_TUS, harness='harness/c07_recip.c', extra_sources=[MEM], defines=['VERIF_PART=3'],
+    replace_calls=dict(RECIP_COMMON, **{'bus_connection_remove_match_rule': 'verif_stub_connection_remove_match_rule', 'bus_match_rule_unref': 'verif_stub_rule_unref', 'bus_connection_get_name': 'verif_stub_connection_get_name'}),
+    unwind=12, timeout=600, expect_s=30, must_have=['post1', 'post2', 'post3'],
+    bounds={'rules': 3, 'owners': 2, 'note': 'one rule list; the loop over pools and hash buckets in bus_matchmaker_disconnected is not executed (hash iteration)'},
+    functions=[dict(name='rule_list_remove_by_connection, bus_matchmaker_remove_rule_link', file=SIG, status='bounded', contract='removes every rule owned by the connection or naming its unique name as sender; the others stay; each removed rule leaves its owner list and is released once'),
+               dict(name='bus_matchmaker_disconnected', file=SIG, status='assumed', note='applies rule_list_remove_by_connection to every list of every pool (hash iteration not executed)')] + LIST_FUNCS,
+    assumptions=['bus_matchmaker_disconnected visits every rule list (loop over 5 pools x hash buckets: read, not executed)']))
